@@ -10,12 +10,21 @@ import iterchecks
 
 
 def stack_amplification(bins):
-    """native amplification of a 'next() calls itself on a skipped deal' witness: one frame per consecutive blocked deal"""
+    """native amplification of a 'next() calls itself on a skipped deal' witness: one frame per consecutive blocked deal.
+    Scenarios of every blocking kind: blocked by another player / by turn and river (a narrow range beside wide ones), and
+    blocked by the flop (a range whose every combo holds a flop card)."""
     out = {}
-    wide = {'debug': 't:22+,A2s+,K2s+', 'release': 't:22+,A2s+,K2s+,Q2s+,J2s+,T2s+,A2o+'}
-    for prof in ('debug', 'release'):
-        p = subprocess.run([bins[prof], 'drain', 'Qs8d2h', '2048', 't:AsKs', wide[prof]], capture_output=True, text=True, timeout=600)
-        out[prof] = dict(rc=p.returncode, out=(p.stdout + p.stderr)[-300:])
+    cards = [r + s for r in 'AKQJT98765432' for s in 'shdc']
+    with_as = 't:' + ','.join('As' + c for c in cards if c != 'As')
+    scen = {
+        'narrow-beside-wide': {'debug': ['Qs8d2h', 't:AsKs', 't:22+,A2s+,K2s+'], 'release': ['Qs8d2h', 't:AsKs', 't:22+,A2s+,K2s+,Q2s+,J2s+,T2s+,A2o+']},
+        'flop-blocked-range': {'debug': ['AsKd7c', with_as], 'release': ['AsKd7c', with_as]},
+    }
+    for name, per in scen.items():
+        for prof in ('debug', 'release'):
+            a_ = per[prof]
+            p = subprocess.run([bins[prof], 'drain', a_[0], '2048'] + a_[1:], capture_output=True, text=True, timeout=900)
+            out[f'{name}/{prof}'] = dict(rc=p.returncode, out=(p.stdout + p.stderr)[-200:])
     return out
 
 
@@ -32,7 +41,7 @@ def main():
         import c02
         c02.replay_history('C08', a.replay)
     ns = [1, 2] if a.tier == 'quick' else [1, 2, 3]
-    configs = [(p, n, True) for p in ('dev', 'release') for n in ns]
+    configs = [(p, n, True) for p in ('dev', 'release') for n in ns] + iterchecks.ctor_configs(seed, ('dev', 'release'), a.tier == 'quick')
     # the re-entry obligation is post-processed: a self-call path is a *sufficient-condition* failure; confirm natively by amplification
     import itermodel
     orig_key = iterchecks.finding_key
